@@ -70,3 +70,14 @@ Theorem C06_task_init_stamp_is_the_code :
   forall st e, st <> 0 -> core_task_init_epoch st e = Some e.
 Proof. exact leaf_task_init_epoch. Qed.
 Print Assumptions C06_task_init_stamp_is_the_code.
+
+(* iv_main: tasks pending => the zero timeout {0, 0}, otherwise the soonest timer *)
+From Ivv Require Import Gen.LeafCoreEvent Gen.LeafCoreLists.
+Theorem C06_main_timeout_choice_is_the_code :
+  forall (s : core) (soonest : option Z),
+  match core_main_tasks_pending (b2z (negb (list_is_empty (tasks s)))), core_main_zero_sec tt, core_main_zero_nsec tt with
+  | Some pending, Some sec, Some nsec => Some (if pending then Some (sec * 1000000000 + nsec) else soonest)
+  | _, _, _ => None
+  end = Some (match tasks s with _ :: _ => Some 0 | [] => soonest end).
+Proof. exact main_timeout_choice_is_the_code. Qed.
+Print Assumptions C06_main_timeout_choice_is_the_code.
